@@ -13,10 +13,10 @@ cd "$HERE/harness" || exit 2
 build() {
     local log="$HERE/target/build.log"
     mkdir -p "$HERE/target"
-    if ! cargo build --release --offline --bin check >"$log" 2>&1; then
+    if ! cargo build --release --offline --bin check --target-dir "$HERE/target" >"$log" 2>&1; then
         # a stale lock file is the only recoverable cause: retry once from the repository's lock
         cp /repo/Cargo.lock Cargo.lock 2>/dev/null
-        if ! cargo build --release --offline --bin check >"$log" 2>&1; then
+        if ! cargo build --release --offline --bin check --target-dir "$HERE/target" >"$log" 2>&1; then
             echo "INCONCLUSIVE: harness does not build against the current tree (see $log)"
             tail -n 30 "$log"
             return 2
